@@ -326,6 +326,19 @@ fn attr_suffix(op: &dyn rv::Operator) -> String {
         }
         "Softmax" => format!("{{axis={},flush={}}}", dbg_field(&d, "axis").unwrap_or_default(), b01(dbg_field(&d, "flush_nans_to_zero"))),
         "AddSoftmax" => format!("{{flush={}}}", b01(dbg_field(&d, "flush_nans_to_zero"))),
+        n if n.starts_with("TransformInputs(") => {
+            // transforms: [TransformIndex { input_index: 0, transform: Permute(PermuteInput { perm: Some([1, 0]) }) }, ..]
+            let mut parts = vec![];
+            for chunk in d.split("TransformIndex {").skip(1) {
+                let idx = dbg_field(chunk, "input_index").unwrap_or_default();
+                let perm = match dbg_field(chunk, "perm").as_deref().and_then(unsome) {
+                    Some(p) => p.trim_matches(|c| c == '[' || c == ']').replace(", ", "."),
+                    None => "rev".into(),
+                };
+                parts.push(format!("{idx}:{perm}"));
+            }
+            format!("{{{}}}", parts.join(";"))
+        }
         _ => String::new(),
     }
 }
